@@ -8,6 +8,7 @@ import (
 	"regexp"
 	"strings"
 	"sync"
+	"unicode/utf8"
 
 	"verifmc/node"
 
@@ -55,6 +56,19 @@ func (m *mirrorTx) toTx() (*types.Transaction, []byte, error) {
 }
 
 var toNameRe = regexp.MustCompile(`^[\w\-.]+$`)
+
+// bodyRefusesMessage asks the real VerifyTxBody whether a plain, otherwise valid transfer carrying msg
+// is refused because of its message.
+func bodyRefusesMessage(msg string) bool {
+	u0, u1 := node.User(0), node.User(1)
+	const now = 1600000000
+	ok := types.NewTransaction(u0.Addr, u1.Addr, big.NewInt(1), 21000, big.NewInt(1000000000), nil, params.OrdinaryTx, 200, now+100, "", "plain")
+	if err := ok.VerifyTxBody(200, now, true); err != nil {
+		panic("harness: the plain transaction is refused: " + err.Error())
+	}
+	tx := types.NewTransaction(u0.Addr, u1.Addr, big.NewInt(1), 21000, big.NewInt(1000000000), nil, params.OrdinaryTx, 200, now+100, "", msg)
+	return tx.VerifyTxBody(200, now, true) == types.ErrTxMessage
+}
 
 var txFields = []string{"Type", "Version", "ChainID", "From", "GasPayer", "Recipient", "RecipientName", "GasPrice", "GasLimit", "GasUsed", "Amount", "Data", "Expiration", "Message", "Sigs", "GasPayerSigs"}
 
@@ -413,6 +427,13 @@ func txJSON(a *acc, idx []int, m *mirrorTx, tx0 *types.Transaction, hash0 common
 	}
 	if tx2.Hash() != hash0 {
 		d := firstDiff(canonTx(tx0), canonTx(tx2))
+		if d == "Message" && !utf8.ValidString(m.Message) && bodyRefusesMessage(m.Message) {
+			// the real VerifyTxBody refuses an otherwise valid transaction carrying this message (not
+			// valid UTF-8), so no valid transaction has it; asked of the code, not assumed: if that
+			// refusal disappears this is a violation again
+			a.note("json-roundtrip-changes-hash/Transaction/invalid-Message(not a valid transaction)", fmt.Sprintf("idx=%v message=%x json=%s", idx, m.Message, clipS(string(js), 200)), len(js))
+			return "json-hash-changes(invalid-message,not-asserted)"
+		}
 		if d == "ToName" && !toNameRe.MatchString(m.RecipientName) {
 			// VerifyTxBody refuses such a name (ToName must match [A-Za-z0-9_.-]+), so no valid transaction carries it
 			a.note("json-roundtrip-changes-hash/Transaction/invalid-ToName(not a valid transaction)", fmt.Sprintf("idx=%v toName=%x json=%s", idx, m.RecipientName, clipS(string(js), 200)), len(js))
